@@ -367,7 +367,9 @@ impl Session {
         // breakpoints as the debugger lists them
         let bps: Vec<Value> = dbg.breakpoints_snapshot().iter().map(view_json).collect();
         o.insert("bps".into(), json!(bps));
-        if alive && self.detached_pid.is_none() {
+        // before `start` the child has not exec'ed the program yet: nothing to observe
+        let in_program = dbg.ecx().location().pc.as_u64() != 0;
+        if alive && in_program && self.detached_pid.is_none() {
             // independent register read (same tracer thread)
             if let Ok(r) = nix::sys::ptrace::getregs(focus) {
                 let top = self.main_entry_sp + 8;
